@@ -84,14 +84,16 @@ def _catalogue():
         cat.append(("block", g))
     for g in range(N_PAT):
         cat.append(("inline", g))
+    cat.append(("textempty", None))     # appended last so that earlier indices stay stable
+    cat.append(("htmlempty", None))
     return cat
 
 
 CATALOGUE = _catalogue()
-N_CHILD = len(CATALOGUE)            # 28
+N_CHILD = len(CATALOGUE)            # 30
 VALID_CHILD = [k for k, (kind, g) in enumerate(CATALOGUE) if not (kind == "inline" and g is not None and g >= N_PAT_INLINE)]
 INLINE_CHILD = [k for k, (kind, g) in enumerate(CATALOGUE)
-                if kind in ("text", "html", "rh", "meta", "textnl", "br") or (kind == "inline" and g < N_PAT_INLINE)]
+                if kind in ("text", "html", "rh", "meta", "textnl", "br", "textempty", "htmlempty") or (kind == "inline" and g < N_PAT_INLINE)]
 
 
 def child(k: int, i: int):
@@ -109,6 +111,10 @@ def child(k: int, i: int):
         return b_meta(i)
     if kind == "textnl":
         return b_text("a\nb" + str(i))
+    if kind == "textempty":
+        return b_text("")
+    if kind == "htmlempty":
+        return b_html("")
     if kind == "br":
         return b_el("br", False, [])
     if kind == "hr":
